@@ -103,6 +103,54 @@ def query_ranges(ctx):
                         ok_inner = r2[0] == ("int", 1) and r2[2] and hi == ("call", D + "size", (me(b),))
         ctx.ob("T4-query-ranges", b.name, "all indices x all chambers", "ok" if ok_outer and ok_inner else "violation",
                fn + " quantifies over 0..=dim() and 1..=size()" if ok_outer and ok_inner else fn + " does not quantify over all indices 0..=dim() and all chambers 1..=size() (outer ok: %s, inner ok: %s)" % (ok_outer, ok_inner))
+    # overrides of is_complete in the four representations: a full quantification, a delegation to the wrapped set, or `true` behind a
+    # constructor that asserts completeness
+    for d_ in sorted(ctx.facts.bodies):
+        if not (d_.endswith(" as dsets::DSet>::is_complete")):
+            continue
+        b = ctx.facts.bodies[d_]
+        ctx.scan(ctx.facts.with_closures(b.name))
+        r = ret_origin(b, g)
+        alls = list(b.calls("Iterator::all"))
+        rng = [range_of(b, b.origin(t["args"][0]), g) for bi, t in alls]
+        isdim = lambda x: x is not None and (x == ("call", D + "dim", (me(b),)) or (x[0] == "field" and x[1] == me(b) and x[2] == "dim"))
+        issize = lambda x: x is not None and (is_call(x, "::size") or (x[0] == "field" and x[2] == "size"))
+        if r == ("int", 1):
+            ty = d_.split(" as ")[0].lstrip("<")
+            ctor = ctx.facts.bodies.get(ty + "::from_partial")
+            okc = False
+            if ctor is not None:
+                p1 = ("param", 1, ctor.debug.get(1, ""))
+                for bi, blk in ctor.live_blocks():
+                    t = blk["term"]
+                    if t["k"] == "switch":
+                        dd = norm(ctor.origin(t["discr"]), g)
+                        if is_call(dd, "is_complete") and strip(dd[2][0]) == p1:
+                            okc = True
+            ctx.ob("T4-query-ranges", b.name, "true <- constructor asserts", "ok" if okc else "violation",
+                   "`true` is justified by %s::from_partial asserting is_complete() of its argument" % ty.split("::")[-1] if okc else
+                   "is_complete() is constantly true but %s::from_partial does not test is_complete() of its argument" % ty.split("::")[-1])
+            continue
+        deleg = [t for bi, t in b.calls("::is_complete") if strip(norm(b.origin(t["args"][0]), g))[0] == "field" and strip(norm(b.origin(t["args"][0]), g))[1] == me(b)]
+        if deleg:
+            # the delegated answer must be necessary for `true`: every way of returning true passes the call's true edge
+            dj = bool_join_disjuncts(b, 0, g)
+            if dj and not all(any(a[0] == "bool" and a[2] is True and is_call(a[1], "::is_complete") for a in atoms) for bb, atoms in dj):
+                deleg = []
+        full = [rr for rr in rng if rr is not None and rr[0] == ("int", 0) and rr[2] and isdim(rr[1])]
+        inner_ok = False
+        for bi, t in alls:
+            cp = closure_parts(b.origin(t["args"][1]))
+            cb = ctx.facts.bodies.get(cp[0]) if cp else None
+            for bj, t2 in (cb.calls("Iterator::all") if cb else []):
+                r2 = range_of(cb, cb.origin(t2["args"][0]), g)
+                if r2 is not None and r2[0] == ("int", 1) and r2[2] and issize(r2[1]):
+                    inner_ok = True
+        ok = bool(deleg) or (bool(full) and inner_ok)
+        ctx.ob("T4-query-ranges", b.name, "all indices x all chambers", "ok" if ok else "violation",
+               "delegates to the wrapped set's is_complete()" if deleg else "quantifies over 0..=dim() and 1..=size()" if ok else
+               "the override does not quantify over all indices 0..=dim() and all chambers 1..=size() (ranges: %s): undefined entries of the last operation / chamber go unnoticed, "
+               "and the asserting constructors accept incomplete sets" % [(show(x[0], 1), show(x[1], 1)[:20], x[2]) for x in rng if x])
     b = ctx.body(D + "is_weakly_oriented")
     r = ret_origin(b, g)
     ok = contains(r, lambda x: x == ("call", D + "partial_orientation", (me(b),)))
